@@ -451,6 +451,7 @@ def digest_last_piece(ctx, prog):
     # lengths
     badl = []
     nlen = 0
+    kinds = {}
     for i, j, s in f.stmts():
         if s["s"] != "assign" or not s["lhs"]["p"]:
             continue
@@ -467,9 +468,11 @@ def digest_last_piece(ctx, prog):
                       if x["s"] == "assign" and x["lhs"]["p"] and (bi == i or (atoms(bi) == ats and (f.dominates(bi, i) or f.dominates(i, bi))))]
         mm = re.match(r"local:\w+_(\d+)$", v)
         if mm and int(mm.group(1)) in sizes:
+            kinds.setdefault(k, []).append("counter")
             if sizes[int(mm.group(1))][0] != ("C0" if k == "1" else "C1"):
                 badl.append("len_blockhash%s := counter of %s" % (k, sizes[int(mm.group(1))][0]))
             continue
+        kinds.setdefault(k, []).append("+1" if v == "Add(%s,1)" % p else v[:12])
         if v == "Add(%s,1)" % p:
             if not any(re.match(r"local:\w+\.blockhash%s\[local:\w+_\d+\]$" % k, q) for q in same_block) or ("Ne", "ROLL", "0") not in ats:
                 badl.append("len_blockhash%s += 1 without an appended piece in the same block" % k)
@@ -485,6 +488,20 @@ def digest_last_piece(ctx, prog):
         badl.append("len_blockhash%s := %s" % (k, v[:80]))
     ctx.ob(RS, "finalize: every stored length is the piece counter of the matching context, +1 together with an appended piece, 1 together with a piece at [0], or 0 when there is neither a next context nor a rolling value",
            not badl and nlen >= 8, "; ".join(badl) or "%d length stores" % nlen, f.loc())
+    # ... and none is missing: block hash 1 gets its counter and one `+1`; block hash 2 gets its counter on the two bulk-copy routes, `+1`
+    # on the two appending routes that store the length first, `1` on the two single-piece routes and `0` on the empty one; the three piece
+    # counters that count the occupied last slot in are each advanced once
+    want_k = {"1": ["+1", "counter"], "2": ["+1", "+1", "0", "1", "1", "counter", "counter"]}
+    got_k = {k: sorted(v) for k, v in kinds.items()}
+    incs = 0
+    for i, j, s in f.stmts():
+        if s["s"] == "assign" and not s["lhs"]["p"] and s["lhs"]["l"] in sizes:
+            v = re.sub(r"^\((\w+)WithOverflow\((.*)\)\)\.0$", r"\1(\2)", canon(strip(sy.rvalue(s["rv"]))))
+            me = "local:%s_%d" % (f.locals[s["lhs"]["l"]]["name"] or "", s["lhs"]["l"])
+            if v == "Add(%s,1)" % me:
+                incs += 1
+    ctx.ob(RS, "finalize: the set of length stores is complete (2 for block hash 1, 7 for block hash 2) and each of the three piece counters is advanced once for an occupied last slot / appended piece",
+           got_k == {k: sorted(v) for k, v in want_k.items()} and incs == 3, "length stores %s; counter advances %d" % (got_k, incs), f.loc())
 
 
 def initial_state(ctx, prog):
